@@ -12,7 +12,7 @@ def showOpt : Option Bytes → String
   | none => "v -"
   | some v => "v " ++ hexOrDash v
 
-/-- `set:<k>=<v>`, `del:<k>`, `idx:<k>=<v>`, `root=<r>` -/
+/-- `set:<k>=<v>`, `del:<k>`, `idx:<k>=<v>`, `idxdel:<k>`, `root=<r>` -/
 def parseBlk (ws : List String) : Option BlockIn :=
   ws.foldlM (fun (b : BlockIn) w =>
     if w.startsWith "set:" then
@@ -24,6 +24,10 @@ def parseBlk (ws : List String) : Option BlockIn :=
     else if w.startsWith "del:" then
       match ofHex (w.drop 4).toString with
       | some k => some { b with ops := smSet b.ops k .del }
+      | none => none
+    else if w.startsWith "idxdel:" then
+      match ofHex (w.drop 7).toString with
+      | some k => some { b with idxDel := b.idxDel ++ [k] }
       | none => none
     else if w.startsWith "idx:" then
       match ((w.drop 4).toString.splitOn "=") with
